@@ -6,8 +6,8 @@ From PyGql Require Import Valid.ValidOverlap Spec.ValidSpec Proofs.ValidClosePro
      Proofs.ValidGraphProofs Proofs.ValidVarProofs Proofs.ValidPermProofs
      Proofs.ValidUnusedProofs Proofs.ValidSelPermProofs Proofs.ValidUniqueProofs
      Spec.ValidValueSpec Proofs.ValidValueProofs Spec.ValidLocalSpec Proofs.ValidLocalProofs
-     Proofs.ValidVerdictProofs Proofs.ValidPermAllProofs Proofs.ValidSelPermAllProofs Proofs.ValidRenameProofs
-     Spec.ValidTypedSpec Proofs.ValidValuesDocProofs Proofs.ValidVarPosProofs Proofs.ValidVerdict25Proofs.
+     Proofs.ValidVerdictProofs Proofs.ValidPermAllProofs Proofs.ValidSelPermAllProofs Proofs.ValidRenameProofs Proofs.ValidRenameAllProofs
+     Spec.ValidTypedSpec Proofs.ValidValuesDocProofs Proofs.ValidVarPosProofs Proofs.ValidVerdict25Proofs Proofs.ValidRename25Proofs Proofs.ValidSelPerm25Proofs.
 From Coq Require Import Permutation.
 
 (* The closure iteration (repaired _flatten_fragments, and the reachable set
@@ -200,6 +200,19 @@ Theorem C06_rename_partial : forall rho sigma : str -> str,
 Proof. exact rename_graph_rules. Qed.
 Print Assumptions C06_rename_partial.
 
+(* ... and the whole verdict of the 23 rules of [valid_spec] is invariant under
+   the same renaming ([ren_doc] keeps field, argument, directive, input-field
+   and type names, variable types and the presence of defaults; aliases are
+   free). Distinctness is kept because [rho] and [sigma] are injective; no
+   other hypothesis. *)
+Theorem C06_rename : forall rho sigma : str -> str,
+  (forall a b, rho a = rho b -> a = b) -> (forall a b, sigma a = sigma b -> a = b) ->
+  forall fuel s d d',
+  ren_doc rho sigma d d' ->
+  (validate_rules fuel s d rules_with_spec = Ok [] <-> validate_rules fuel s d' rules_with_spec = Ok []).
+Proof. exact rename_all. Qed.
+Print Assumptions C06_rename.
+
 (* ---- the two rules about input positions, at document level ---- *)
 (* ValuesOfCorrectType: silent exactly when every argument of a node met by
    descent (resp. of a directive) is coercible to the type the schema gives
@@ -241,6 +254,29 @@ Theorem C06_perm_definitions_25 : forall fuel s d d',
   (validate_rules fuel s d rules_but_overlap = Ok [] <-> validate_rules fuel s d' rules_but_overlap = Ok []).
 Proof. exact perm_definitions25. Qed.
 Print Assumptions C06_perm_definitions_25.
+
+(* ... under reordering the selections of every selection set and the
+   arguments of every field and directive, at every depth ... *)
+Theorem C06_perm_selections_arguments_25 : forall fuel s d d',
+  wf_inputs s -> wf_arg_types s -> wf_var_types s d ->
+  doc_perm d d' ->
+  (validate_rules fuel s d rules_but_overlap = Ok [] <-> validate_rules fuel s d' rules_but_overlap = Ok []).
+Proof. exact perm_selections_arguments25. Qed.
+Print Assumptions C06_perm_selections_arguments_25.
+
+(* ... and under consistent renaming of fragments ([rho]), variables ([sigma])
+   and aliases: the verdict of the 25 rules other than
+   OverlappingFieldsCanBeMerged is unchanged (ValuesOfCorrectType: a literal is
+   coercible whatever its variables are called; VariablesInAllowedPosition:
+   the renamed variable keeps its type, its default and its positions). *)
+Theorem C06_rename_25 : forall rho sigma : str -> str,
+  (forall a b, rho a = rho b -> a = b) -> (forall a b, sigma a = sigma b -> a = b) ->
+  forall fuel s d d',
+  wf_inputs s -> wf_arg_types s -> wf_var_types s d ->
+  ren_doc rho sigma d d' ->
+  (validate_rules fuel s d rules_but_overlap = Ok [] <-> validate_rules fuel s d' rules_but_overlap = Ok []).
+Proof. exact rename25. Qed.
+Print Assumptions C06_rename_25.
 
 (* Full statement: the whole verdict is invariant under permutation of the
    definitions. *)
